@@ -367,6 +367,9 @@ func (fx *Fx) sliceFacts(v Val) {
 				fx.assert("(=> (= " + arr + " 0) (and (= " + cp + " 0) (= " + off + " 0)))")
 				i += 4
 			}
+		case *types.Interface:
+			fx.assert("(=> (= " + v.L[i] + " 0) (= " + v.L[i+1] + " 0))")
+			i += 2
 		case *types.Struct:
 			if isOpaque(t) {
 				return
